@@ -31,6 +31,29 @@ def configs(tier, menu):
         out.append({"cluster": CLUSTER, "discovery": False, "timeout_ms": 5000, "topics": ["t"],
                     "logs": {"t/0": 2, "t/1": 1}, "group": grp, "processor": proc, "commit_every_n": n,
                     "script": [["start"], ["stop", {"consumed": True}]], "menu": menu, "horizon_s": 400})
+    if menu is MENU:
+        # heartbeat ticks inside the backoff window of a pending rejoin
+        out.append({"cluster": CLUSTER, "discovery": False, "timeout_ms": 5000, "topics": ["t"],
+                    "logs": {"t/0": 2, "t/1": 1}, "group": {"leader": "real"}, "processor": "sync",
+                    "commit_every_n": 1, "backoffs": {"retry": 3000, "heartbeat": 1000},
+                    "script": [["start"], ["stop", {"consumed": True, "time": 9.0}]],
+                    "menu": {"err": {"8": [22], "12": [27]}, "cluster_events": [["append", "t", 0, "late"]],
+                             "timer_early": True}, "horizon_s": 400})
+        # a rebalance arrives while an automatic commit is in flight and more has been processed since
+        out.append({"cluster": dict(CLUSTER, modes=[{"api": 12, "err": 27, "budget": 1},
+                                                     {"api": 8, "delay": 1.5, "budget": 1}],
+                                    topics={"t": {"0": 1, "1": 1}}), "discovery": False,
+                    "timeout_ms": 5000, "topics": ["t"], "logs": {"t/0": 0, "t/1": 0}, "group": {"leader": "real"},
+                    "processor": "sync", "commit_every_n": 1,
+                    "script": [["start"], ["append", "t/0", ["n1", "n2"], {"time": 2.0}],
+                               ["stop", {"consumed": True, "time": 9.0}]],
+                    "menu": {"timer_early": True}, "horizon_s": 400})
+        out.append({"cluster": dict(CLUSTER, modes=[{"api": 12, "err": 27, "budget": 1}]), "discovery": False,
+                    "timeout_ms": 5000, "topics": ["t"], "logs": {"t/0": 1, "t/1": 1}, "group": {"leader": "real"},
+                    "processor": "sync", "commit_every_n": 1,
+                    "script": [["start"], ["append", "t/0", ["n1", "n2"], {"time": 2.0}],
+                               ["stop", {"consumed": True, "time": 8.0}]],
+                    "menu": {"timer_early": True}, "horizon_s": 400})
     return out
 
 
@@ -58,6 +81,10 @@ def run(tier, seed, only=None):
     else:
         plans = [("group-2dev", configs(tier, MENU), (1, 1, 2)),
                  ("group-3dev-light", configs(tier, MENU_LIGHT), (2, 1, 3))]
+    # the two scripted scenarios (heartbeat inside a rejoin backoff; rebalance while a commit is in flight) get a
+    # deeper schedule bound of their own
+    scripted = [dict(c, menu=dict(c["menu"], err={"12": [27], "8": [22]})) for c in configs(tier, MENU)[-3:]]
+    plans.append(("scripted-rebalance-timing", scripted, (1, 2, 3) if tier == "quick" else (2, 2, 4)))
     if only:
         plans = [p for p in plans if p[0] in only]
     return _dfs.run_plans(PROPERTY, SPEC, plans, seed, RULE, ASSUME, max_steps=500)
